@@ -752,3 +752,340 @@ Proof. intros H. unfold lq_run, ls_run. apply lq_refines_run_none. exact H. Qed.
 
 Theorem lq_oracle_accepts_model ops : limits_ok (map lq_decode ops) -> lq_oracle ops (lq_run ops) = true.
 Proof. intros H. unfold lq_oracle. rewrite lq_refines_bounded_fifo by exact H. apply trace_eqb_refl. Qed.
+
+(* ---- conservation / order / blocked pushes on the limited_queue model ---- *)
+Definition l_is_destroy (x : lop) : bool := match x with LDestroy => true | LCreate _ => true | _ => false end.
+Definition l_push_val (x : lop) : list Z := match x with LPush v => [v] | _ => [] end.
+Definition l_pushed_vals (l : list lop) : list Z := flat_map l_push_val l.
+Definition l_no_destroy (l : list lop) : Prop := Forall (fun x => l_is_destroy x = false) l.
+
+(* the items of the pushes that were not withdrawn: the i-th push is dropped iff its push future failed (unblock_push) *)
+Fixpoint kept (pv : list Z) (fs : list fstate) : list Z :=
+  match pv, fs with
+  | v :: p, f :: t => (match f with FExc _ => [] | _ => [v] end) ++ kept p t
+  | _, _ => []
+  end.
+
+Lemma kept_app a : forall fa b fb, length a = length fa -> kept (a ++ b) (fa ++ fb) = kept a fa ++ kept b fb.
+Proof.
+  induction a as [|v a IH]; intros [|f fa] b fb H; cbn [length] in H; try discriminate; cbn [app kept]; [reflexivity|].
+  rewrite IH by lia. rewrite app_assoc. reflexivity.
+Qed.
+Lemma kept_pending l : kept l (repeat FPending (length l)) = l.
+Proof. induction l as [|v l IH]; cbn [length repeat kept app]; [reflexivity|]. rewrite IH. reflexivity. Qed.
+Lemma kept_nil_r l : kept l [] = [].
+Proof. destruct l; reflexivity. Qed.
+
+Record lgood (pv : list Z) (q : lqueue) (done pdone : list fstate) (pva : list Z) : Prop := mkLGood {
+  lg_alive : l_alive q = true;
+  lg_sz : lsz q;
+  lg_shape : shape (l_futs q) (l_waiters q) done;
+  lg_nopend : nopend done;
+  lg_pshape : shape (l_pfuts q) (map snd (l_blocked q)) pdone;
+  lg_pnopend : nopend pdone;
+  lg_pv : pv = pva ++ map fst (l_blocked q);
+  lg_len : length pva = length pdone;
+  lg_kept : kept pva pdone = delivered (l_futs q) ++ l_items q
+}.
+
+Lemma lgood_new limit : 1 <= limit -> lgood [] (lq_new limit) [] [] [].
+Proof. intros H. split; cbn; try reflexivity; try (apply lsz_new; exact H); try exact shape_nil; constructor. Qed.
+
+Lemma shape_nil_done fs done : shape fs [] done -> fs = done.
+Proof. intros [F _]. cbn in F. rewrite app_nil_r in F. exact F. Qed.
+
+Lemma lgood_step pv q done pdone pva x : lgood pv q done pdone pva -> l_is_destroy x = false ->
+  exists done' pdone' pva', lgood (pv ++ l_push_val x) (fst (lq_step_on q x)) done' pdone' pva'.
+Proof.
+  intros G ND. pose proof G as [A Z Sh N PSh PN PV LE KE].
+  assert (lsz (fst (lq_step_on q x))) as Z'.
+  { apply lsz_step; [exact Z|exact A|]. unfold lq_step_on. rewrite A. cbn [negb].
+    destruct x; cbn [l_is_destroy] in ND; try discriminate; cbn [fst]; try exact A.
+    - unfold lq_push. destruct (l_waiters q); [destruct (zlen (l_items q) >=? l_limit q)|]; cbn [fst l_alive]; exact A.
+    - unfold lq_pop. destruct (l_items q); [|destruct (l_blocked q) as [|[? ?] ?]]; cbn [fst l_alive]; exact A.
+    - unfold lq_unblock_pop. destruct (l_waiters q); cbn [fst l_alive]; exact A.
+    - unfold lq_unblock_push. destruct (l_blocked q) as [|[? ?] ?]; cbn [fst l_alive]; exact A. }
+  revert Z'. unfold lq_step_on. rewrite A. cbn [negb].
+  destruct Z as [ZL ZS ZF ZW].
+  destruct q as [it ws bl lim fs pf al]; cbn [l_items l_waiters l_blocked l_limit l_futs l_pfuts l_alive] in *. subst al.
+  destruct x as [l|v| |e| | |e| ]; cbn [l_is_destroy l_push_val] in *; try discriminate; cbn [fst]; intros Z';
+    try (exists done, pdone, pva; rewrite app_nil_r; exact G).
+  - (* push *)
+    revert Z'. unfold lq_push; cbn [l_items l_waiters l_blocked l_limit l_futs l_pfuts l_alive].
+    destruct ws as [|p w]; cbn [fst].
+    + destruct (zlen it >=? lim) eqn:E; cbn [fst]; intros Z'.
+      * (* blocks *)
+        exists done, pdone, pva. split; cbn [l_items l_waiters l_blocked l_limit l_futs l_pfuts l_alive]; try assumption; try reflexivity.
+        -- rewrite map_app. cbn [map snd]. apply shape_park. exact PSh.
+        -- rewrite PV. rewrite (map_app fst). cbn [map fst]. rewrite app_assoc. reflexivity.
+      * (* enqueues: nobody is blocked *)
+        assert (bl = []) as -> by (destruct bl; [reflexivity|]; exfalso; assert (zlen it = lim) by (apply ZF; discriminate); lia).
+        cbn [map] in *. pose proof (shape_nil_done _ _ PSh) as EP. subst pf.
+        exists done, (pdone ++ [FValue 0]), (pva ++ [v]).
+        split; cbn [l_items l_waiters l_blocked l_limit l_futs l_pfuts l_alive map]; try assumption; try reflexivity.
+        -- apply (proj1 (shape_ready _ _ (FValue 0) PSh)).
+        -- apply nopend_app; [exact PN|apply nopend_one; discriminate].
+        -- rewrite PV. rewrite !app_nil_r. reflexivity.
+        -- rewrite !app_length. cbn [length]. lia.
+        -- rewrite kept_app by exact LE. rewrite KE. cbn [kept app]. rewrite <- app_assoc. reflexivity.
+    + (* hand-over to the oldest waiting pop *)
+      intros Z'. assert (it = []) as -> by (apply ZW; discriminate).
+      assert (bl = []) as -> by (destruct bl; [reflexivity|]; exfalso; assert (zlen (@nil Z) = lim) by (apply ZF; discriminate); rewrite zlen_nil in *; lia).
+      cbn [map] in *. pose proof (shape_nil_done _ _ PSh) as EP. subst pf.
+      pose proof (shape_take fs p w done (FValue v) Sh) as (Hp & Hf & Hs & Hsh).
+      exists (done ++ [FValue v]), (pdone ++ [FValue 0]), (pva ++ [v]).
+      split; cbn [l_items l_waiters l_blocked l_limit l_futs l_pfuts l_alive map]; try assumption; try reflexivity.
+      * apply nopend_app; [exact N|apply nopend_one; discriminate].
+      * apply (proj1 (shape_ready _ _ (FValue 0) PSh)).
+      * apply nopend_app; [exact PN|apply nopend_one; discriminate].
+      * rewrite PV. rewrite !app_nil_r. reflexivity.
+      * rewrite !app_length. cbn [length]. lia.
+      * rewrite kept_app by exact LE. rewrite KE. cbn [kept app]. rewrite Hs, Hf.
+        rewrite !delivered_app. cbn [delivered flat_map val_of app]. rewrite !delivered_repeat_pending. rewrite !app_nil_r. reflexivity.
+  - (* pop *)
+    rewrite app_nil_r. revert Z'. unfold lq_pop; cbn [l_items l_waiters l_blocked l_limit l_futs l_pfuts l_alive].
+    destruct it as [|y t]; cbn [fst]; intros Z'.
+    + exists done, pdone, pva. split; cbn [l_items l_waiters l_blocked l_limit l_futs l_pfuts l_alive]; try assumption; try reflexivity.
+      * apply shape_park. exact Sh.
+      * rewrite KE. rewrite delivered_app. cbn. rewrite !app_nil_r. reflexivity.
+    + assert (ws = []) as -> by (destruct ws; [reflexivity|]; exfalso; assert (y :: t = []) by (apply ZW; discriminate); discriminate).
+      pose proof (shape_ready fs done (FValue y) Sh) as [Sh' ED].
+      destruct bl as [|[z bp] b]; cbn [fst] in *.
+      * exists (fs ++ [FValue y]), pdone, pva.
+        split; cbn [l_items l_waiters l_blocked l_limit l_futs l_pfuts l_alive]; try assumption; try reflexivity.
+        -- apply nopend_app; [rewrite ED; exact N|apply nopend_one; discriminate].
+        -- rewrite KE. rewrite delivered_app. cbn [delivered flat_map val_of app]. rewrite <- app_assoc. reflexivity.
+      * cbn [map snd fst] in *.
+        pose proof (shape_take pf bp (map snd b) pdone (FValue 0) PSh) as (Hp & Hf & Hs & Hsh).
+        exists (fs ++ [FValue y]), (pdone ++ [FValue 0]), (pva ++ [z]).
+        split; cbn [l_items l_waiters l_blocked l_limit l_futs l_pfuts l_alive]; try assumption; try reflexivity.
+        -- apply nopend_app; [rewrite ED; exact N|apply nopend_one; discriminate].
+        -- apply nopend_app; [exact PN|apply nopend_one; discriminate].
+        -- rewrite PV. rewrite <- app_assoc. reflexivity.
+        -- rewrite !app_length. cbn [length]. lia.
+        -- rewrite kept_app by exact LE. rewrite KE. cbn [kept app]. rewrite delivered_app.
+           cbn [delivered flat_map val_of app]. rewrite <- !app_assoc. reflexivity.
+  - (* unblock_pop *)
+    rewrite app_nil_r. revert Z'. unfold lq_unblock_pop; cbn [l_items l_waiters l_blocked l_limit l_futs l_pfuts l_alive].
+    destruct ws as [|p w]; cbn [fst]; intros Z'; [exists done, pdone, pva; exact G|].
+    assert (it = []) as -> by (apply ZW; discriminate).
+    pose proof (shape_take fs p w done (FExc e) Sh) as (Hp & Hf & Hs & Hsh).
+    exists (done ++ [FExc e]), pdone, pva.
+    split; cbn [l_items l_waiters l_blocked l_limit l_futs l_pfuts l_alive]; try assumption; try reflexivity.
+    + apply nopend_app; [exact N|apply nopend_one; discriminate].
+    + rewrite KE. rewrite Hs, Hf.
+      rewrite !delivered_app. cbn [delivered flat_map val_of app]. rewrite !delivered_repeat_pending. rewrite !app_nil_r. reflexivity.
+  - (* unblock_push *)
+    rewrite app_nil_r. revert Z'. unfold lq_unblock_push; cbn [l_items l_waiters l_blocked l_limit l_futs l_pfuts l_alive].
+    destruct bl as [|[z bp] b]; cbn [fst]; intros Z'; [exists done, pdone, pva; exact G|].
+    cbn [map snd fst] in *.
+    pose proof (shape_take pf bp (map snd b) pdone (FExc e) PSh) as (Hp & Hf & Hs & Hsh).
+    exists done, (pdone ++ [FExc e]), (pva ++ [z]).
+    split; cbn [l_items l_waiters l_blocked l_limit l_futs l_pfuts l_alive]; try assumption; try reflexivity.
+    + apply nopend_app; [exact PN|apply nopend_one; discriminate].
+    + rewrite PV. rewrite <- app_assoc. reflexivity.
+    + rewrite !app_length. cbn [length]. lia.
+    + rewrite kept_app by exact LE. rewrite KE. cbn [kept app]. rewrite !app_nil_r. reflexivity.
+Qed.
+
+Fixpoint lq_exec (q : lqueue) (l : list lop) : lqueue :=
+  match l with [] => q | x :: t => lq_exec (fst (lq_step_on q x)) t end.
+
+Lemma lq_exec_run q ops : snd (lq_run_from (Some q) ops) = Some (lq_exec q ops).
+Proof.
+  revert q; induction ops as [|x ops IH]; intros q; cbn [lq_run_from lq_exec lq_step]; [reflexivity|].
+  destruct (lq_step_on q x) as [q1 o]. cbn [fst]. specialize (IH q1). destruct (lq_run_from (Some q1) ops). exact IH.
+Qed.
+
+Lemma lgood_run ops : forall pv q done pdone pva, lgood pv q done pdone pva -> l_no_destroy ops ->
+  exists done' pdone' pva', lgood (pv ++ l_pushed_vals ops) (lq_exec q ops) done' pdone' pva'.
+Proof.
+  induction ops as [|x ops IH]; intros pv q done pdone pva G ND; cbn [lq_exec l_pushed_vals flat_map].
+  - exists done, pdone, pva. rewrite app_nil_r. exact G.
+  - inversion ND as [|x' l' Hx Hl]; subst.
+    destruct (lgood_step _ _ _ _ _ x G Hx) as (d1 & p1 & a1 & G1).
+    destruct (IH _ _ _ _ _ G1 Hl) as (d2 & p2 & a2 & G2).
+    exists d2, p2, a2. rewrite app_assoc. exact G2.
+Qed.
+
+Definition lq_reach (limit : Z) (ops : list lop) : lqueue := lq_exec (lq_new limit) ops.
+
+Lemma lgood_reach limit ops : 1 <= limit -> l_no_destroy ops ->
+  exists done pdone pva, lgood (l_pushed_vals ops) (lq_reach limit ops) done pdone pva.
+Proof. intros L ND. exact (lgood_run ops [] _ _ _ _ (lgood_new limit L) ND). Qed.
+
+(* conservation + order: the pushed items minus the withdrawn ones (push future failed by unblock_push), in push order,
+   are exactly: the values held by the pop futures in pop-arrival order, then the queued items, then the items
+   held by the blocked pushes.  List equality: nothing lost, nothing duplicated, nothing reordered. *)
+Theorem lq_conservation_order limit ops : 1 <= limit -> l_no_destroy ops ->
+  let q := lq_reach limit ops in
+  kept (l_pushed_vals ops) (l_pfuts q) = delivered (l_futs q) ++ l_items q ++ map fst (l_blocked q).
+Proof.
+  intros L ND q. destruct (lgood_reach limit ops L ND) as (done & pdone & pva & [A Z Sh N PSh PN PV LE KE]).
+  fold q in A, Z, Sh, PSh, PV, KE. rewrite PV. destruct PSh as [PF PW]. rewrite PF.
+  rewrite kept_app by exact LE. rewrite KE. rewrite map_length.
+  rewrite <- (map_length fst (l_blocked q)). rewrite kept_pending. rewrite app_assoc. reflexivity.
+Qed.
+
+(* the blocked pushes are exactly the pending push futures, oldest first, each holding the item of its own push;
+   nobody is blocked unless the queue is full; nobody waits unless it is empty *)
+Theorem lq_blocked_fifo limit ops : 1 <= limit -> l_no_destroy ops ->
+  let q := lq_reach limit ops in
+  exists pdone, l_pfuts q = pdone ++ repeat FPending (length (l_blocked q)) /\ nopend pdone /\
+    map snd (l_blocked q) = seq (length pdone) (length (l_blocked q)) /\
+    map fst (l_blocked q) = skipn (length pdone) (l_pushed_vals ops) /\
+    (l_blocked q <> [] -> zlen (l_items q) = limit) /\ zlen (l_items q) <= limit /\
+    (l_waiters q <> [] -> l_items q = [] /\ l_blocked q = []).
+Proof.
+  intros L ND q. destruct (lgood_reach limit ops L ND) as (done & pdone & pva & [A Z Sh N PSh PN PV LE KE]).
+  fold q in A, Z, Sh, PSh, PV, KE. destruct PSh as [PF PW]. rewrite map_length in PF, PW.
+  assert (l_limit q = limit) as EL.
+  { clear. unfold q, lq_reach. assert (forall q0, l_limit (lq_exec q0 ops) = l_limit q0) as K.
+    { induction ops as [|x ops IH]; intros q0; cbn [lq_exec]; [reflexivity|]. rewrite IH.
+      unfold lq_step_on. destruct (l_alive q0); cbn [negb fst]; [|reflexivity].
+      destruct x; cbn [fst]; try reflexivity.
+      - unfold lq_push. destruct (l_waiters q0); [destruct (zlen (l_items q0) >=? l_limit q0)|]; reflexivity.
+      - unfold lq_pop. destruct (l_items q0); [|destruct (l_blocked q0) as [|[? ?] ?]]; reflexivity.
+      - unfold lq_unblock_pop. destruct (l_waiters q0); reflexivity.
+      - unfold lq_unblock_push. destruct (l_blocked q0) as [|[? ?] ?]; reflexivity. }
+    apply K. }
+  destruct Z as [ZL ZS ZF ZW]. rewrite EL in *.
+  exists pdone. repeat split; try assumption.
+  - rewrite PV. rewrite <- LE. rewrite skipn_app, Nat.sub_diag, skipn_all. reflexivity.
+  - apply ZW; assumption.
+  - destruct (l_blocked q) eqn:B; [reflexivity|]. exfalso.
+    assert (l_items q = []) as E by (apply ZW; assumption). assert (zlen (l_items q) = limit) as E2 by (apply ZF; discriminate).
+    rewrite E, zlen_nil in E2. lia.
+Qed.
+
+(* a push completes immediately exactly while fewer than `limit` items are waiting; otherwise its future is pending *)
+Theorem lq_push_immediate_iff pv q done pdone pva v : lgood pv q done pdone pva ->
+  let q' := fst (lq_push q v) in let f := snd (lq_push q v) in
+  f = length (l_pfuts q) /\ l_pfuts q' = l_pfuts q ++ [if zlen (l_items q) <? l_limit q then FValue 0 else FPending] /\
+  (zlen (l_items q) <? l_limit q = false -> l_blocked q' = l_blocked q ++ [(v, f)] /\ l_items q' = l_items q /\ l_futs q' = l_futs q).
+Proof.
+  intros [A [ZL ZS ZF ZW] Sh N PSh PN PV LE KE]. unfold lq_push.
+  destruct (l_waiters q) as [|p w] eqn:W; cbn [fst snd l_pfuts l_blocked l_items l_futs].
+  - destruct (zlen (l_items q) >=? l_limit q) eqn:E; cbn [fst snd l_pfuts l_blocked l_items l_futs].
+    + assert (zlen (l_items q) <? l_limit q = false) as -> by lia. repeat split.
+    + assert (zlen (l_items q) <? l_limit q = true) as -> by lia. repeat split; discriminate.
+  - assert (l_items q = []) as E by (apply ZW; discriminate).
+    replace (zlen (l_items q)) with 0 by (rewrite E; reflexivity).
+    assert (0 <? l_limit q = true) as -> by lia. repeat split; discriminate.
+Qed.
+
+(* push futures change only at the OLDEST pending push, only by pop (completed) or unblock_push (failed with e),
+   or all at once by destruction (canceled) *)
+Theorem lq_push_completes_only_by pv q done pdone pva x j : lgood pv q done pdone pva ->
+  fget (l_pfuts (fst (lq_step_on q x))) j <> fget (l_pfuts q) j -> (j < length (l_pfuts q))%nat ->
+  (x = LPop /\ l_items q <> [] /\ oldest_pending (l_pfuts q) j /\ fget (l_pfuts (fst (lq_step_on q x))) j = FValue 0) \/
+  (exists e, x = LUnblockPush e /\ oldest_pending (l_pfuts q) j /\ fget (l_pfuts (fst (lq_step_on q x))) j = FExc e) \/
+  (x = LDestroy /\ fget (l_pfuts q) j = FPending /\ fget (l_pfuts (fst (lq_step_on q x))) j = FCanceled).
+Proof.
+  intros [A [ZL ZS ZF ZW] Sh N PSh PN PV LE KE]. unfold lq_step_on. rewrite A. cbn [negb].
+  destruct PSh as [PF PW]. rewrite map_length in PF, PW.
+  destruct q as [it ws bl lim fs pf al]; cbn [l_items l_waiters l_blocked l_limit l_futs l_pfuts l_alive] in *.
+  destruct x as [l|v| |e| | |e| ]; cbn [fst l_pfuts]; try (intros H; exfalso; apply H; reflexivity).
+  - (* push: only appends *)
+    unfold lq_push; cbn [l_items l_waiters l_blocked l_limit l_futs l_pfuts l_alive].
+    destruct ws as [|p w]; [destruct (zlen it >=? lim)|]; cbn [fst l_pfuts]; intros H LT; exfalso; apply H; apply fget_app_left; exact LT.
+  - (* pop *)
+    unfold lq_pop; cbn [l_items l_waiters l_blocked l_limit l_futs l_pfuts l_alive].
+    destruct it as [|y t]; cbn [fst l_pfuts]; [intros H; exfalso; apply H; reflexivity|].
+    destruct bl as [|[z bp] b]; cbn [fst l_pfuts]; [intros H; exfalso; apply H; reflexivity|].
+    cbn [map snd length seq] in PW. injection PW as Wp Ww. intros H LT. left.
+    destruct (Nat.eq_dec bp j) as [E|E]; [|exfalso; apply H; apply fget_set_other; exact E].
+    subst j. repeat split; try discriminate.
+    + rewrite Wp, PF. apply oldest_is_first; [exact PN|cbn [length]; lia].
+    + rewrite Wp, PF. intros j L. rewrite fget_app_left by exact L. apply nopend_fget; assumption.
+    + apply fget_set_same. exact LT.
+  - (* unblock_pop *)
+    unfold lq_unblock_pop; cbn [l_items l_waiters l_blocked l_limit l_futs l_pfuts l_alive].
+    destruct ws as [|p w]; cbn [fst l_pfuts]; intros H; exfalso; apply H; reflexivity.
+  - (* destroy *)
+    intros H LT. right; right. split; [reflexivity|]. unfold lq_destroy in *. cbn [l_pfuts l_blocked l_futs l_waiters] in *.
+    rewrite PF in H at 1. rewrite PW in H. rewrite cancel_all_seq in H. rewrite PF in LT. rewrite app_length, repeat_length in LT.
+    destruct (Nat.lt_ge_cases j (length pdone)) as [L|L].
+    + exfalso. apply H. rewrite PF. rewrite !fget_app_left by exact L. reflexivity.
+    + rewrite PF at 1. rewrite PF at 1. rewrite PW. rewrite cancel_all_seq. rewrite !fget_app_right by exact L.
+      rewrite !fget_repeat by lia. split; reflexivity.
+  - (* unblock_push *)
+    unfold lq_unblock_push; cbn [l_items l_waiters l_blocked l_limit l_futs l_pfuts l_alive].
+    destruct bl as [|[z bp] b]; cbn [fst l_pfuts]; [intros H; exfalso; apply H; reflexivity|].
+    cbn [map snd length seq] in PW. injection PW as Wp Ww. intros H LT. right; left. exists e.
+    destruct (Nat.eq_dec bp j) as [E|E]; [|exfalso; apply H; apply fget_set_other; exact E].
+    subst j. repeat split.
+    + rewrite Wp, PF. apply oldest_is_first; [exact PN|cbn [length]; lia].
+    + rewrite Wp, PF. intros j L. rewrite fget_app_left by exact L. apply nopend_fget; assumption.
+    + apply fget_set_same. exact LT.
+Qed.
+
+(* one per pop: a pop changes at most one push future *)
+Theorem lq_one_per_pop pv q done pdone pva j k : lgood pv q done pdone pva ->
+  (j < length (l_pfuts q))%nat -> (k < length (l_pfuts q))%nat ->
+  fget (l_pfuts (fst (lq_step_on q LPop))) j <> fget (l_pfuts q) j ->
+  fget (l_pfuts (fst (lq_step_on q LPop))) k <> fget (l_pfuts q) k -> j = k.
+Proof.
+  intros G Lj Lk Hj Hk.
+  destruct (lq_push_completes_only_by _ _ _ _ _ LPop j G Hj Lj) as [(_ & _ & Oj & _)|[(e & X & _)|(X & _)]]; try discriminate.
+  destruct (lq_push_completes_only_by _ _ _ _ _ LPop k G Hk Lk) as [(_ & _ & Ok & _)|[(e & X & _)|(X & _)]]; try discriminate.
+  exact (oldest_unique _ _ _ Oj Ok).
+Qed.
+
+(* unblock_push is exact: it fails the oldest blocked push with e, withdraws that push's own item, nothing else moves *)
+Theorem lq_unblock_push_exact pv q done pdone pva e : lgood pv q done pdone pva ->
+  let q' := fst (lq_step_on q (LUnblockPush e)) in
+  match l_blocked q with
+  | [] => q' = q
+  | (y, j) :: b =>
+      oldest_pending (l_pfuts q) j /\ y = nth j pv 0 /\
+      l_pfuts q' = set_nth (l_pfuts q) j (FExc e) /\ l_blocked q' = b /\
+      l_items q' = l_items q /\ l_futs q' = l_futs q /\ l_waiters q' = l_waiters q /\ l_limit q' = l_limit q /\ l_alive q' = true
+  end.
+Proof.
+  intros [A [ZL ZS ZF ZW] Sh N PSh PN PV LE KE]. unfold lq_step_on. rewrite A. cbn [negb fst]. unfold lq_unblock_push.
+  destruct PSh as [PF PW]. rewrite map_length in PF, PW.
+  destruct (l_blocked q) as [|[y j] b] eqn:B; cbn [fst].
+  - reflexivity.
+  - cbn [map snd fst length seq] in *. injection PW as Wp Ww.
+    cbn [l_pfuts l_blocked l_items l_futs l_waiters l_limit l_alive]. repeat split; try assumption.
+    + rewrite Wp, PF. apply oldest_is_first; [exact PN|lia].
+    + rewrite Wp, PF. intros k L. rewrite fget_app_left by exact L. apply nopend_fget; assumption.
+    + rewrite PV, Wp, <- LE. rewrite app_nth2 by lia. rewrite Nat.sub_diag. reflexivity.
+Qed.
+
+(* the pop side of limited_queue behaves as in queue<T>: a waiting pop is completed only by a push (the oldest one,
+   with the pushed value), by the base class' unblock_pop (the oldest, with e) or by destruction *)
+Theorem lq_pop_completes_only_by pv q done pdone pva x i : lgood pv q done pdone pva ->
+  fget (l_futs q) i = FPending -> fget (l_futs (fst (lq_step_on q x))) i <> FPending ->
+  (exists v, x = LPush v /\ oldest_pending (l_futs q) i /\ fget (l_futs (fst (lq_step_on q x))) i = FValue v) \/
+  (exists e, x = LUnblockPop e /\ oldest_pending (l_futs q) i /\ fget (l_futs (fst (lq_step_on q x))) i = FExc e) \/
+  (x = LDestroy /\ fget (l_futs (fst (lq_step_on q x))) i = FCanceled).
+Proof.
+  intros [A [ZL ZS ZF ZW] [F W] N PSh PN PV LE KE] P. unfold lq_step_on. rewrite A. cbn [negb].
+  pose proof P as R. rewrite F in R. apply pending_range in R; [|exact N].
+  destruct q as [it ws bl lim fs pf al]; cbn [l_items l_waiters l_blocked l_limit l_futs l_pfuts l_alive] in *.
+  destruct x as [l|v| |e| | |e| ]; cbn [fst l_futs]; try (intros H; exfalso; exact (H P)).
+  - unfold lq_push; cbn [l_items l_waiters l_blocked l_limit l_futs l_pfuts l_alive].
+    destruct ws as [|p w]; [destruct (zlen it >=? lim)|]; cbn [fst l_futs]; try (intros H; exfalso; exact (H P)).
+    cbn [length seq] in W. injection W as Wp Ww. intros H. left. exists v. split; [reflexivity|].
+    destruct (Nat.eq_dec p i) as [E|E]; [|exfalso; apply H; rewrite fget_set_other by exact E; exact P].
+    subst i. split; [|apply fget_set_same; rewrite F, app_length, repeat_length; cbn [length]; lia].
+    rewrite Wp, F. apply oldest_is_first; [exact N|cbn [length]; lia].
+  - unfold lq_pop; cbn [l_items l_waiters l_blocked l_limit l_futs l_pfuts l_alive].
+    destruct it as [|y t]; [|destruct bl as [|[z bp] b]]; cbn [fst l_futs];
+      intros H; exfalso; apply H; rewrite fget_app_left; try exact P; rewrite F, app_length, repeat_length; lia.
+  - unfold lq_unblock_pop; cbn [l_items l_waiters l_blocked l_limit l_futs l_pfuts l_alive].
+    destruct ws as [|p w]; cbn [fst l_futs]; [intros H; exfalso; exact (H P)|].
+    cbn [length seq] in W. injection W as Wp Ww. intros H. right; left. exists e. split; [reflexivity|].
+    destruct (Nat.eq_dec p i) as [E|E]; [|exfalso; apply H; rewrite fget_set_other by exact E; exact P].
+    subst i. split; [|apply fget_set_same; rewrite F, app_length, repeat_length; cbn [length]; lia].
+    rewrite Wp, F. apply oldest_is_first; [exact N|cbn [length]; lia].
+  - intros _. right; right. split; [reflexivity|]. unfold lq_destroy. cbn [l_futs l_waiters].
+    rewrite F. rewrite W at 2. rewrite cancel_all_seq. rewrite fget_app_right by lia. apply fget_repeat. lia.
+  - unfold lq_unblock_push; cbn [l_items l_waiters l_blocked l_limit l_futs l_pfuts l_alive].
+    destruct bl as [|[z bp] b]; cbn [fst l_futs]; intros H; exfalso; exact (H P).
+Qed.
+
+Theorem lq_dead_rejects q x : l_alive q = false -> lq_step_on q x = (q, rejected).
+Proof. intros H. unfold lq_step_on. rewrite H. reflexivity. Qed.
